@@ -19,7 +19,7 @@ type cutTok struct {
 // genWF emits the tokens of one well-formed expression
 func genWF(r *rng, depth int, out *[]cutTok) {
 	atom := func() {
-		a := r.pick([]string{"a", "foo", "1", "-7", "nil", "true", ":k", "\"s\"", "\"(\"", "\")]}\"", "\"a\\\"b\"", "¬raw¬", "¬)¬", "¬a¬¬(b¬", "x-1", "+", "&", "λ"})
+		a := r.pick([]string{"a", "foo", "1", "-7", "nil", "true", ":k", "\"s\"", "\"(\"", "\")]}\"", "\"a\\\"b\"", "¬raw¬", "¬)¬", "¬a¬¬(b¬", "x-1", "+", "&", "λ", "\"¬\"", "\"a¬(\"", "\"¬¬¬\""})
 		k := "atom"
 		if a[0] == '"' || a[0] == ':' || strings.HasPrefix(a, "¬") {
 			k = "key"
@@ -187,7 +187,7 @@ func renderToks(r *rng, toks []cutTok) string {
 			case 0:
 				b.WriteString("\n")
 			case 1:
-				b.WriteString(" ; c )(\n")
+				b.WriteString([]string{" ; c )(\n", " ; ¬ ( \"\n"}[r.intn(2)])
 			case 2:
 				b.WriteString("  ")
 			default:
